@@ -6,7 +6,7 @@ the remaining input starts with `BYTES(schema, w)`, the result is `VALUE(schema,
 and exactly those bytes are consumed.  The skip functions have the same
 precondition and consume the same bytes.
 """
-from pyvc.contracts import target, R, implies
+from pyvc.contracts import target, R, implies, same
 import spec.core as S
 import spec.avro as A
 import contracts.lemmas as L
@@ -764,3 +764,73 @@ class read_enum_badindex:
     call_ghosts = {"read_enum": dict(z=lambda: z, rest=lambda: rest)}
     raises = [R("IndexError", when=lambda: True)]
     ensures = lambda: False
+
+
+# ------------------------------------------------------------------ schema resolution pieces (C08)
+import spec.canon as K
+
+
+@target(RD, "maybe_promote")
+class maybe_promote:
+    """the decoded value as the reader's type sees it: ints become floats under float/double, text and
+    bytes convert through UTF-8, everything else is unchanged (int -> long needs no conversion in Python)"""
+    types = dict(data="py", writer_type="py", reader_type="py")
+    modifies = []
+    requires = lambda data, writer_type, reader_type: (
+        implies(writer_type == "int" or writer_type == "long", isinstance(data, int) and not isinstance(data, bool))
+        and implies(writer_type == "string", isinstance(data, str))
+        and implies(writer_type == "bytes", isinstance(data, bytes)))
+    raises = [R("UnicodeDecodeError", must=True,
+                when=lambda data, writer_type, reader_type: (
+                    writer_type == "bytes" and reader_type == "string" and not S.utf8_valid(data)))]
+    ensures = lambda data, writer_type, reader_type, result: (
+        implies((writer_type == "int" or writer_type == "long") and (reader_type == "float" or reader_type == "double"),
+                isinstance(result, float) and same(result, S.f_of_int(data)))
+        and implies(writer_type == "string" and reader_type == "bytes", result == S.utf8(data))
+        and implies(writer_type == "bytes" and reader_type == "string", result == S.utf8_decode(data))
+        and implies(not K.PROMOTABLE(writer_type, reader_type) or (writer_type == "int" and reader_type == "long")
+                    or (writer_type == "float" and reader_type == "double"), same(result, data)))
+
+
+@target(RD, "match_types", behavior="prims")
+class match_types_prims:
+    """two primitive type names match iff they are equal or the writer's promotes to the reader's"""
+    types = dict(writer_type="str", reader_type="str", named_schemas="dict")
+    returns = "bool"
+    modifies = []
+    unfold_here = ["NS_CLEAN"]
+    requires = lambda writer_type, reader_type, named_schemas: (
+        K.IS_PRIM(writer_type) and K.IS_PRIM(reader_type)
+        and "writer" in named_schemas and isinstance(named_schemas["writer"], dict) and A.NS_CLEAN(named_schemas["writer"])
+        and "reader" in named_schemas and isinstance(named_schemas["reader"], dict) and A.NS_CLEAN(named_schemas["reader"]))
+    ensures = lambda writer_type, reader_type, result: (
+        result == (writer_type == reader_type or K.PROMOTABLE(writer_type, reader_type)))
+
+
+@target(RD, "read_enum", behavior="resolve")
+class read_enum_resolve:
+    """C08: with a reader enum, a symbol the reader does not know is replaced by the reader's default, and is a
+    schema-resolution error when the reader declares none"""
+    types = dict(decoder="BinaryDecoder", writer_schema="py", named_schemas="dict", reader_schema="dict", options="dict")
+    ghosts = dict(w="py", rest="bytes")
+    requires = lambda decoder, writer_schema, named_schemas, reader_schema, options: (
+        "writer" in named_schemas and isinstance(named_schemas["writer"], dict)
+        and A.TYPE(writer_schema) == "enum" and A.WF(writer_schema, named_schemas["writer"])
+        and A.WFW(writer_schema, named_schemas["writer"], w)
+        and "type" in reader_schema and "symbols" in reader_schema and isinstance(reader_schema["symbols"], list)
+        and "name" in reader_schema
+        and implies("default" in reader_schema, isinstance(reader_schema["default"], str) and reader_schema["default"] != "")
+        and decoder.fo.rem == A.BYTES(writer_schema, named_schemas["writer"], w) + rest)
+    modifies = ["decoder.fo"]
+    call_behaviors = dict(read_enum="default")
+    call_ghosts = {"read_enum": dict(z=lambda: S.zigzag(w), rest=lambda: rest)}
+    raises = [R("SchemaResolutionError", when=lambda writer_schema, named_schemas, reader_schema: (
+        A.VALUE(writer_schema, named_schemas["writer"], w) not in reader_schema["symbols"]
+        and "default" not in reader_schema))]
+    ensures = lambda decoder, writer_schema, named_schemas, reader_schema, result: (
+        implies(A.VALUE(writer_schema, named_schemas["writer"], w) in reader_schema["symbols"],
+                result == A.VALUE(writer_schema, named_schemas["writer"], w))
+        and implies(A.VALUE(writer_schema, named_schemas["writer"], w) not in reader_schema["symbols"],
+                    result == reader_schema["default"])
+        and decoder.fo.rem == rest
+        and decoder.fo.data == old.decoder.fo.data and decoder.fo.eof_hit == old.decoder.fo.eof_hit)
